@@ -1553,6 +1553,53 @@ def functions():
         return translate_fn(src, "handle_delete", None, spec, "g_handle_delete", "(t : tree) (path : bytes) (expected : option D)", "tree * sreply")
     out.append(("handle_delete", "src/bin/copia/serve.rs handle_delete", None, t_handle_delete))
 
+    GET_OPEN_LET = """{
+    let opened = std::fs::File::open(&dst).and_then(|mut f| {
+        use std::io::Seek;
+        let mut hasher = blake3::Hasher::new();
+        let len = std::io::copy(&mut f, &mut hasher)?;
+        f.seek(std::io::SeekFrom::Start(0))?;
+        Ok((f, len, *hasher.finalize().as_bytes()))
+    });
+}"""
+    GET_STREAM = """{
+    write_frame(w, &Response::Content { len, hash })?;
+    std::io::copy(&mut f.take(len), w)?;
+    w.flush()
+}"""
+
+    def t_handle_get():
+        src = read("src/bin/copia/serve.rs")
+        params, ret, body = R.find_fn(src, "handle_get", None)
+        norm = lambda x: json.loads(json.dumps(x))
+        if [n for n, _ in params] != ["root", "path", "w"]:
+            raise Unsupported("signature of handle_get is %s" % params)
+        want = R.Parser(R.tokenize(GET_OPEN_LET)).block()[1][0]
+        stmts = list(body[1])
+        idx = next((i for i, st in enumerate(stmts) if st[0] == "let" and st[1] == ("pbind", "opened")), None)
+        if idx is None or norm(stmts[idx]) != norm(want):
+            raise Unsupported("handle_get: length, hash and bytes no longer come from ONE open descriptor (`File::open(&dst).and_then(|mut f| { hash it; seek to 0; Ok((f, len, hash)) })`)")
+        # read as: `opened` = the content the path names at the moment of the open (None = no such file)
+        stmts[idx] = ("let", ("pbind", "opened"), None, ("call", ("path", ["OPEN_CONTENT"]), [("path", ["dst"])]), None)
+        tail = body[2]
+        want_stream = R.Parser(R.tokenize(GET_STREAM)).block()
+        if tail is None or tail[0] != "match" or norm(tail[1]) != norm(("path", ["opened"])) or len(tail[2]) != 2 \
+                or norm(tail[2][0][0]) != norm(("ppath", ["Ok"], [("ptuple", [("pbind", "f"), ("pbind", "len"), ("pbind", "hash")])])) \
+                or norm(tail[2][0][2]) != norm(want_stream):
+            raise Unsupported("handle_get: the reply is no longer `Content { len, hash }` followed by exactly `len` bytes of that same descriptor")
+        # the Ok arm is read as: reply Content with the bytes of `opened`
+        tail = ("match", tail[1], [(("ppath", ["Some"], [("pbind", "c")]), None, ("call", ("path", ["REPLY_CONTENT"]), [("path", ["c"])])),
+                                   (("pwild",), tail[2][1][1], tail[2][1][2])])
+        spec = dict(state="t", calls={"safe_join": ("safe_key {1}", "Option<PathBuf>"), "OPEN_CONTENT": ("file_at t {0}", "Option<Vec<u8>>"),
+                                       "REPLY_CONTENT": ("(t, RContent {0})", "Reply"), "write_frame": ("(t, {1})", "Reply"),
+                                       "Response::Error": ("{0}", "Reply")},
+                    strings={"bad path": "RBadPath", "not found": "RNotFound"}, param_types={"root": "Path"})
+        fn = Fn(spec)
+        env = {"root": "Path", "path": "str", "w": "W"}
+        text = fn.block(("block", stmts, tail), env, Ctx(val=(lambda x: x), ret=(lambda x: x), fall=None))
+        return "Definition g_handle_get (t : tree) (path : bytes) : tree * @sreply D :=\n  %s." % text
+    out.append(("handle_get", "src/bin/copia/serve.rs handle_get", None, t_handle_get))
+
     PUT_STREAM_BLOCK = """{
     let mut hasher = blake3::Hasher::new();
     let mut received: u64 = 0;
@@ -2396,7 +2443,7 @@ GROUPS = {
     "WireFrame": ("Model.Wire", "wireframe", ["read_frame"]),
     "BisyncApply": ("", "bisync", ["apply"]),
     "ConflictName": ("", "conflictname", ["short_hex", "short_hash", "loser_name", "hub_conflict_name"]),
-    "HubDelete": ("", "hubseq", ["handle_delete", "handle_put"]),
+    "HubDelete": ("", "hubseq", ["handle_delete", "handle_put", "handle_get"]),
     "BisyncRun": ("", "bisyncrun", ["run_bisync"]),
     "HubSync": ("", "hubsync", ["hub_sync"]),
     "ServeLoop": ("", "serveloop", ["serve"]),
